@@ -2,7 +2,7 @@
 # verify every seed under $1 (default /tmp/seedout): demo passes clean / fails patched / suite passes patched; results in $1/verify.log
 ROOT=${1:-/tmp/seedout}
 for d in $ROOT/C*/[0-9]; do
-  if [ -f $d/patch.diff ] && [ ! -f $d/verify.json ]; then
+  if [ -f $d/patch.diff ] && [ -f $d/meta.json ] && [ ! -f $d/verify.json ]; then
     /verif/tools/seed.py verify $d > $d/verify.json 2>&1
     echo "$d $(grep -o '"valid": [a-z]*' $d/verify.json)" >> $ROOT/verify.log
   fi
